@@ -327,8 +327,94 @@ def run_ctor(which: int, sub_defines: bool, tpre: bool, tpost: bool) -> Tuple[bo
     return ok, witness
 
 
+def run_diamond_snapshot(kind_i: int, b_over: bool, c_over: bool, d_over: bool, d_post: bool, ta: bool, td: bool) -> Tuple[bool, bool]:
+    """A.m has a postcondition and a snapshot; B(A), C(A) and D(B, C) override m or not: the classes can be created, the
+    snapshot is captured once and every class's verdict is the conjunction of the postconditions on its chain."""
+    kind_i = conc(kind_i, 0, 2)
+    kind = ["method", "static", "class"][kind_i]
+    b_over, c_over, d_over, d_post = (True if v else False for v in (b_over, c_over, d_over, d_post))
+    key = ("dsnap", kind, b_over, c_over, d_over, d_post)
+    with untraced():
+        w = _CACHE.get(key)
+        if w is None:
+            w = World.__new__(World)
+            w.h = Holder()
+            hw = w
+
+            def mk(cname: str, post: bool, snap: bool) -> Any:
+                def body_impl(kw: Dict[str, Any]) -> Any:
+                    hw.h.log.append(("body", cname))
+                    return cname
+                params = {"method": ("self", "x"), "static": ("x",), "class": ("cls", "x")}[kind]
+                fn = mkfn(params, body_impl, name="m")
+                if post:
+                    def post_impl(kw: Dict[str, Any]) -> Any:
+                        hw.h.log.append(("post", cname, getattr(kw["OLD"], "s", "<no OLD.s>")))
+                        return hw.h.tv("post", cname)
+                    fn = icontract.ensure(mkfn(("x", "OLD"), post_impl, name="post_" + cname),
+                                          error=lambda: Tag(("post", cname)))(fn)
+                if snap:
+                    def cap_impl(kw: Dict[str, Any]) -> Any:
+                        hw.h.log.append(("snap", cname))
+                        return ("old", kw["x"])
+                    fn = icontract.snapshot(mkfn(("x",), cap_impl, name="cap"), name="s")(fn)
+                if kind == "static":
+                    return staticmethod(fn)
+                if kind == "class":
+                    return classmethod(fn)
+                return fn
+
+            w.classes = {}
+            w.creation_error = {}
+            try:
+                A = icontract.DBCMeta("A", (icontract.DBC,), {"m": mk("A", True, True)})
+                Bc = icontract.DBCMeta("B", (A,), {"m": mk("B", False, False)} if b_over else {})
+                Cc = icontract.DBCMeta("C", (A,), {"m": mk("C", False, False)} if c_over else {})
+                Dc = icontract.DBCMeta("D", (Bc, Cc), {"m": mk("D", d_post, False)} if d_over else {})
+                w.classes = {"A": A, "B": Bc, "C": Cc, "D": Dc}
+            except (TypeError, ValueError) as err:
+                w.creation_error["?"] = err
+            _CACHE[key] = w
+        w.h = Holder()
+    w.h.setup = False
+    if w.creation_error:
+        return False, False  # a diamond over one inherited snapshot is legitimate and must be accepted
+    truth = {"A": ta, "D": td}
+    w.h.tv = lambda role, c: truth[c]
+    ok = True
+    witness = False
+    for cname in ("A", "B", "C", "D"):
+        cls = w.classes[cname]
+        del w.h.log[:]
+        try:
+            fresh(lambda: cls.m(7) if kind != "method" else cls().m(7))
+            got = "ret"
+        except Tag as err:
+            got = err.label[1]
+        declared_d_post = cname == "D" and d_over and d_post
+        want = "A" if not ta else ("D" if declared_d_post and not td else "ret")
+        # A's postcondition is inherited by everybody; it may legitimately be listed once per path of the diamond
+        if got != want and not (want == "D" and got == "A"):
+            ok = False
+        snaps = [e for e in w.h.log if e[0] == "snap"]
+        if len(snaps) != 1:
+            ok = False
+        for e in w.h.log:
+            if e[0] == "post" and e[2] != ("old", 7):
+                ok = False
+        if got != "ret":
+            witness = True
+    note(("diamond_snapshot", kind, b_over, c_over, d_over, d_post), witness)
+    return ok, witness
+
+
 def harnesses(tier: str) -> List[H]:
     out = []  # type: List[H]
+    DS = ["kind_i", "b_over", "c_over", "d_over", "d_post", "ta", "td"]
+    dparams = [I("kind_i", 0, 2), B("b_over"), B("c_over"), B("d_over"), B("d_post"), B("ta"), B("td")]
+    out.append(H("diamond_snapshot", bind(run_diamond_snapshot, (), DS, {}, DS), dparams, tiers=(tier,), timeout=600,
+                 family="diamond A <- B, C <- D; A.m (method / static / class method) has a postcondition and a snapshot; B, C, D "
+                        "override m or not, D with or without an own postcondition reading OLD", family_size=3 * 16))
     truth = lambda n: [B("a%d" % i) for i in range(n)] + [B("q%d" % i) for i in range(n)]  # noqa: E731
     if tier == "quick":
         cfgs = [("chain3", "method", 0), ("two_bases", "method", 0), ("diamond", "method", 0),
